@@ -170,12 +170,12 @@ Definition ring_intersects_ring (r o : rng) (allow : bool) : bool :=
     let '(r', o') := if rect_area (ring_rect r) <? rect_area (ring_rect o) then (o, r) else (r, o) in
     existsb (fun sg => ring_intersects_segment r' sg allow) (ring_segments o').
 
-(* ringIntersectsLine (ring.go:362-382); the line is an open series *)
-Definition ring_intersects_line (r : rng) (l : series) (allow : bool) : bool :=
-  if ring_empty r || series_empty l then false
-  else if negb (rect_intersects_rect (ring_rect r) (series_rect l)) then false
-  else if existsb (fun p => rcp_hit r p allow) (pts l) then true
-  else existsb (fun sg => ring_intersects_segment r sg allow) (segments l).
+(* ringIntersectsLine (ring.go:362-382); the line is an open series, prepared *)
+Definition ring_intersects_line (r : rng) (l : rng) (allow : bool) : bool :=
+  if ring_empty r || ring_empty l then false
+  else if negb (rect_intersects_rect (ring_rect r) (ring_rect l)) then false
+  else if existsb (fun p => rcp_hit r p allow) (ring_points l) then true
+  else existsb (fun sg => ring_intersects_segment r sg allow) (ring_segments l).
 
 (* ---- Poly (poly.go) ---- *)
 Record poly := { exterior : rng; holes : list rng }.
@@ -190,14 +190,14 @@ Definition poly_contains_point (p : poly) (q : pt) : bool :=
   else negb (existsb (fun h => rcp_hit h q false) (holes p)).
 
 (* Poly.ContainsLine (poly.go:128-141) *)
-Definition poly_contains_line (p : poly) (l : series) : bool :=
-  if negb (ring_contains_ring (exterior p) (RS l) true) then false
+Definition poly_contains_line (p : poly) (l : rng) : bool :=
+  if negb (ring_contains_ring (exterior p) l true) then false
   else negb (existsb (fun h => ring_intersects_line h l false) (holes p)).
 
 (* Poly.IntersectsLine (poly.go:143-156) *)
-Definition poly_intersects_line (p : poly) (l : series) : bool :=
+Definition poly_intersects_line (p : poly) (l : rng) : bool :=
   if negb (ring_intersects_line (exterior p) l true) then false
-  else negb (existsb (fun h => ring_contains_ring h (RS l) false) (holes p)).
+  else negb (existsb (fun h => ring_contains_ring h l false) (holes p)).
 
 (* Poly.ContainsPoly (poly.go:158-186) *)
 Definition poly_contains_poly (p o : poly) : bool :=
@@ -223,9 +223,8 @@ Definition poly_intersects_rect (p : poly) (q : rect) : bool := poly_intersects_
 Definition line_contains_point (l : series) (p : pt) : bool :=
   existsb (fun si => raycast_on (fst si) p) (ring_search (RS l) (p, p)).
 
-(* the segment walk of Line.ContainsLine (line.go:69-109), with explicit fuel.
-   Result: Some answer, or None when the fuel ran out (the Go loop would still
-   be running). [i] is the index into other's segments, [k] into line's. *)
+(* ---- pinned (pre-repair) Line.ContainsLine: the segment-walk matcher, kept
+   for the refutation theorems (findings F2, F4).  None = fuel ran out. ---- *)
 Fixpoint cl_walk (fuel : nat) (ls os : list seg) (k i : nat) : option bool :=
   match fuel with
   | O => None
@@ -248,12 +247,12 @@ Fixpoint find_index {A} (f : A -> bool) (l : list A) (i : nat) : option nat :=
   | x :: r => if f x then Some i else find_index f r (i + 1)
   end.
 
-Definition line_contains_line_fuel (fuel : nat) (l o : series) : option bool :=
-  if series_empty l || series_empty o then Some false
+Definition line_contains_line_pinned (fuel : nat) (l o : rng) : option bool :=
+  if ring_empty l || ring_empty o then Some false
   else
-    let ls := segments l in let os := segments o in
+    let ls := ring_segments l in let os := ring_segments o in
     match os with
-    | [] => Some false   (* unreachable: a non-empty open series has a segment *)
+    | [] => Some false
     | o0 :: _ =>
         match find_index (fun sg => seg_contains_segment sg o0) ls 0 with
         | None => Some false
@@ -261,37 +260,91 @@ Definition line_contains_line_fuel (fuel : nat) (l o : series) : option bool :=
         end
     end.
 
-(* Line.IntersectsLine (line.go:111-137) *)
-Definition line_intersects_line (l o : series) : bool :=
-  if series_empty l || series_empty o then false
-  else if negb (rect_intersects_rect (series_rect l) (series_rect o)) then false
-  else
-    let '(l', o') := if (npoints o <? npoints l)%nat then (o, l) else (l, o) in
-    existsb (fun sa => existsb (fun si => intersects_segment sa (fst si))
-                               (ring_search (RS o') (seg_rect sa)))
-            (segments l').
+(* ---- Line.ContainsLine after the repair (line.go): every segment of other is
+   covered by line's segments; coversSegment walks from seg.A towards seg.B ---- *)
+Definition line_contains_point_r (l : rng) (p : pt) : bool :=
+  existsb (fun si => raycast_on (fst si) p) (ring_search l (p, p)).
 
-(* Line.ContainsPoly (line.go:139-153): reduces to ContainsLine on the
-   degenerate bounding box; the synthetic line has points [Min, Max] *)
-Definition line_contains_poly_fuel (fuel : nat) (l : series) (p : poly) : option bool :=
-  if series_empty l || poly_empty p then Some false
+Definition dotp (a b e : pt) : Z :=
+  (px e - px a) * (px b - px a) + (py e - py a) * (py b - py a).
+
+(* one pass of the Search callback: the farthest end of a segment along sg that contains cur *)
+Definition covers_step (l : rng) (sg : seg) (cur : pt) (curd : Z) : pt * Z :=
+  let '(a, b) := sg in
+  fold_left
+    (fun acc si =>
+       let s := fst si in
+       if collinear_point s a && collinear_point s b && raycast_on s cur then
+         let acc1 := let d := dotp a b (fst s) in if snd acc <? d then (fst s, d) else acc in
+         let d := dotp a b (snd s) in if snd acc1 <? d then (snd s, d) else acc1
+       else acc)
+    (ring_search l (cur, cur)) (cur, curd).
+
+Fixpoint covers_walk (fuel : nat) (l : rng) (sg : seg) (cur : pt) (curd : Z) : option bool :=
+  match fuel with
+  | O => None
+  | S f =>
+      let '(best, bestd) := covers_step l sg cur curd in
+      if dotp (fst sg) (snd sg) (snd sg) <=? bestd then Some true
+      else if pt_eqb best cur then Some false
+      else covers_walk f l sg best bestd
+  end.
+
+(* every step moves to a new segment end with a strictly larger distance:
+   2 * NumSegments + 2 steps always suffice (proved in LineProofs) *)
+Definition covers_fuel (l : rng) : nat := (2 * length (ring_segments l) + 2)%nat.
+
+Definition line_covers_segment (l : rng) (sg : seg) : option bool :=
+  if pt_eqb (fst sg) (snd sg) then Some (line_contains_point_r l (fst sg))
+  else covers_walk (covers_fuel l) l sg (fst sg) 0.
+
+Fixpoint all_some (l : list (option bool)) : option bool :=
+  match l with
+  | [] => Some true
+  | None :: _ => None
+  | Some false :: _ => Some false
+  | Some true :: r => all_some r
+  end.
+
+(* Line.ContainsLine; None = the walk ran out of fuel (would not terminate) *)
+Definition line_contains_line (l o : rng) : option bool :=
+  if ring_empty l || ring_empty o then Some false
+  else all_some (map (line_covers_segment l) (ring_segments o)).
+
+(* Line.IntersectsLine (line.go) *)
+Definition line_intersects_line (l o : rng) : bool :=
+  if ring_empty l || ring_empty o then false
+  else if negb (rect_intersects_rect (ring_rect l) (ring_rect o)) then false
+  else
+    let '(l', o') := if (ring_npoints o <? ring_npoints l)%nat then (o, l) else (l, o) in
+    existsb (fun sa => existsb (fun si => intersects_segment sa (fst si))
+                               (ring_search o' (seg_rect sa)))
+            (ring_segments l').
+
+(* the synthetic two-point Line of Line.ContainsPoly: only points and rect are
+   set; closed = false; NumSegments = 1 *)
+Definition diag_line (mn mx : pt) : rng :=
+  {| r_pts := [mn; mx]; r_segs := [(mn, mx)]; r_rect := (mn, mx);
+     r_convex := false; r_cw := false; r_empty := false |}.
+
+(* Line.ContainsPoly (line.go): reduces to ContainsLine on the degenerate box *)
+Definition line_contains_poly (l : rng) (p : poly) : option bool :=
+  if ring_empty l || poly_empty p then Some false
   else
     let '(mn, mx) := poly_rect p in
     if negb (px mn =? px mx) && negb (py mn =? py mx) then Some false
-    else
-      (* the synthetic Line has only points and rect set; closed = false *)
-      line_contains_line_fuel fuel l {| closed := false; pts := [mn; mx] |}.
+    else line_contains_line l (diag_line mn mx).
 
-Definition line_contains_rect_fuel (fuel : nat) (l : series) (q : rect) : option bool :=
-  line_contains_poly_fuel fuel l (rect_poly q).
+Definition line_contains_rect (l : rng) (q : rect) : option bool :=
+  line_contains_poly l (rect_poly q).
 
-Definition line_intersects_rect (l : series) (q : rect) : bool := ring_intersects_line (RR q) l true.
-Definition line_intersects_poly (l : series) (p : poly) : bool := poly_intersects_line p l.
+Definition line_intersects_rect (l : rng) (q : rect) : bool := ring_intersects_line (RR q) l true.
+Definition line_intersects_poly (l : rng) (p : poly) : bool := poly_intersects_line p l.
 
 (* ---- Rect (rect.go) ---- *)
-Definition rect_contains_line (q : rect) (l : series) : bool :=
-  negb (series_empty l) && rect_contains_rect q (series_rect l).
-Definition rect_intersects_line (q : rect) (l : series) : bool := ring_intersects_line (RR q) l true.
+Definition rect_contains_line (q : rect) (l : rng) : bool :=
+  negb (ring_empty l) && rect_contains_rect q (ring_rect l).
+Definition rect_intersects_line (q : rect) (l : rng) : bool := ring_intersects_line (RR q) l true.
 Definition rect_contains_poly (q : rect) (p : poly) : bool :=
   negb (poly_empty p) && rect_contains_rect q (poly_rect p).
 Definition rect_intersects_poly (q : rect) (p : poly) : bool := poly_intersects_rect p q.
@@ -300,9 +353,9 @@ Definition rect_intersects_poly (q : rect) (p : poly) : bool := poly_intersects_
 Definition point_rect (p : pt) : rect := (p, p).
 Definition point_contains_rect (p : pt) (q : rect) : bool := rect_eqb (point_rect p) q.
 Definition point_intersects_rect (p : pt) (q : rect) : bool := rect_contains_point q p.
-Definition point_contains_line (p : pt) (l : series) : bool :=
-  negb (series_empty l) && rect_eqb (series_rect l) (point_rect p).
-Definition point_intersects_line (p : pt) (l : series) : bool := line_contains_point l p.
+Definition point_contains_line (p : pt) (l : rng) : bool :=
+  negb (ring_empty l) && rect_eqb (ring_rect l) (point_rect p).
+Definition point_intersects_line (p : pt) (l : rng) : bool := line_contains_point_r l p.
 Definition point_contains_poly (p : pt) (o : poly) : bool :=
   negb (poly_empty o) && rect_eqb (poly_rect o) (point_rect p).
 Definition point_intersects_poly (p : pt) (o : poly) : bool := poly_contains_point o p.
